@@ -184,7 +184,9 @@ func (x *Exec) execStmt(st *State, s ast.Stmt) *State {
 			x.checkLitRequires(st, lit, goArgs, "go")
 			x.note("goroutine body at %s is a separate unit (not executed inline)", x.posShort(s))
 		} else {
-			x.note("goroutine started at %s: callee effects not tracked", x.posShort(s))
+			// go f(args): the callee's contract (precondition, ghost effects) applies at the start point
+			x.evalCallWithArgs(st, s.Call, goArgs)
+			x.note("goroutine started at %s: callee contract applied at the go statement", x.posShort(s))
 		}
 		return st
 	case *ast.DeferStmt:
@@ -250,7 +252,33 @@ func (x *Exec) declare(st *State, o types.Object, v T) {
 		x.storeThrough(st, ref, o.Type(), v)
 		return
 	}
-	st.vars[o] = v
+	st.vars[o] = x.nameTerm(st, v, o.Name())
+}
+
+// nameTerm introduces a named constant for a large term (keeps VCs small).
+func (x *Exec) nameTerm(st *State, v T, hint string) T {
+	if v.Fn != nil || len(v.S) < 200 || v.Ty == nil || len(v.Tuple) > 0 {
+		return v
+	}
+	sn := x.d.sortOf(v.Ty)
+	if strings.HasPrefix(sn, "(Slc ") && strings.HasPrefix(v.S, "(mk-slc ") {
+		// name the array component only: keeps offset/length syntactic
+		as := sexprArgs(v.S)
+		if len(as) == 3 && len(as[0]) >= 150 {
+			n := x.d.freshName(hint + "_arr")
+			x.d.declareConst(n, "(Array Int "+sn[5:len(sn)-1]+")")
+			st.assume(eq(n, as[0]))
+			v.S = "(mk-slc " + n + " " + as[1] + " " + as[2] + ")"
+			if len(v.S) < 300 {
+				return v
+			}
+		}
+	}
+	n := x.d.freshName(hint)
+	x.d.declareConst(n, sn)
+	st.assume(eq(n, v.S))
+	v.S = n
+	return v
 }
 
 // branch evaluates a condition and forks.
@@ -363,6 +391,12 @@ func (x *Exec) convertForAssign(st *State, v T, to types.Type) T {
 	if to == nil {
 		return v
 	}
+	if b, ok := v.Ty.(*types.Basic); ok && b.Kind() == types.UntypedNil {
+		if isRefType(to) {
+			return T{S: "0", Ty: to}
+		}
+		return T{S: x.zero(to), Ty: to}
+	}
 	if _, isIface := to.Underlying().(*types.Interface); isIface {
 		if v.Ty != nil && !isRefType(v.Ty) && !isMathType(v.Ty) {
 			return x.boxValue(st, v, to)
@@ -419,7 +453,7 @@ func (x *Exec) assign(st *State, l ast.Expr, v T) {
 			st.vars[o] = v
 			return
 		}
-		st.vars[o] = v
+		st.vars[o] = x.nameTerm(st, v, o.Name())
 	case *ast.SelectorExpr:
 		sel := x.info().Selections[l]
 		if sel == nil {
@@ -437,7 +471,7 @@ func (x *Exec) assign(st *State, l ast.Expr, v T) {
 		switch u := bt.Underlying().(type) {
 		case *types.Slice:
 			x.checkIndex(st, idx, app("slc-len", base.S), l)
-			nv := fmt.Sprintf("(mk-slc (store (slc-arr %s) %s %s) (slc-off %s) (slc-len %s))", base.S, x.slcIdx(base.S, idx.S), v.S, base.S, base.S)
+			nv := fmt.Sprintf("(mk-slc (store %s %s %s) %s %s)", slcArr(base.S), x.slcIdx(base.S, idx.S), v.S, slcOff(base.S), slcLen(base.S))
 			x.assign(st, l.X, T{S: nv, Ty: bt})
 		case *types.Array:
 			x.checkIndex(st, idx, fmt.Sprint(u.Len()), l)
@@ -478,7 +512,14 @@ func (x *Exec) mapDelete(m, k string) string {
 }
 
 func (x *Exec) slcIdx(s, i string) string {
-	return fmt.Sprintf("(+ (slc-off %s) %s)", s, i)
+	off := slcOff(s)
+	if off == "0" {
+		return i
+	}
+	if i == "0" {
+		return off
+	}
+	return fmt.Sprintf("(+ %s %s)", off, i)
 }
 
 // assignField handles X.f = v following the selection path (embedded fields).
@@ -825,6 +866,11 @@ func (x *Exec) execRange(st *State, s *ast.RangeStmt, label string) *State {
 	nodes := []ast.Node{s.Body}
 	frame := &loopFrame{label: label}
 	top := x.frame()
+	// the ranged collection is visible to invariants as rangecoll<ord>
+	collName := fmt.Sprintf("$rangecoll%d", ord)
+	st.ghost[collName] = coll
+	x.prog.ghosts[collName] = &ghostInfo{sort: x.d.sortOf(ct), ty: ct}
+	top.specScope.rangeIdx[-ord] = collName
 	switch u := ct.Underlying().(type) {
 	case *types.Slice, *types.Array, *types.Basic:
 		var length string
@@ -834,7 +880,7 @@ func (x *Exec) execRange(st *State, s *ast.RangeStmt, label string) *State {
 		case *types.Slice:
 			length = app("slc-len", coll.S)
 			elemT = uu.Elem()
-			elemAt = func(i string) string { return fmt.Sprintf("(select (slc-arr %s) %s)", coll.S, x.slcIdx(coll.S, i)) }
+			elemAt = func(i string) string { return slcAt(coll.S, i) }
 		case *types.Array:
 			length = fmt.Sprint(uu.Len())
 			elemT = uu.Elem()
